@@ -463,3 +463,11 @@ def shift_history(c, res, query, names=('a', 'b', 'c', 'd'), spares=('s1', 's2',
         b.decref(u)
     wf(b)
     return m
+
+
+def shuffled_dict(d, rnd):
+    """the same mapping with its items inserted in a random order: an order / level dict handed to the package must not be read as if its
+    iteration order were the level order"""
+    items = list(d.items())
+    rnd.shuffle(items)
+    return dict(items)
